@@ -71,6 +71,97 @@ func (g *g) drain(n int) {
 	fmt.Fprintln(g.w, "drain")
 }
 
+// resplitPair returns two DIFFERENT transaction lists with the same number n of transactions and the same concatenated
+// bytes, cut at different places (e.g. ["ab","c"] / ["a","bc"]); all 2n transactions are non-empty, pairwise distinct and
+// new to the scenario, so the reaper's seen-filter lets both lists through as two consecutive batches.  The sequencer's
+// queue tells the two batches apart only through the per-transaction length fields of Batch.Hash.
+func (g *g) resplitPair(n int) (a, b [][]byte) {
+	const alpha = "0123456789abcdef"
+	for {
+		g.seq++
+		s := []byte(fmt.Sprintf("rs%d:", g.seq))
+		for i := n + g.r.Intn(5); i >= 0; i-- {
+			s = append(s, alpha[g.r.Intn(len(alpha))])
+		}
+		cut := func() [][]byte {
+			// n-1 strictly ascending cut positions in 1..len(s)-1
+			pos := g.r.Perm(len(s) - 1)[:n-1]
+			for i := range pos {
+				for j := i; j > 0 && pos[j-1] > pos[j]; j-- {
+					pos[j-1], pos[j] = pos[j], pos[j-1]
+				}
+			}
+			var out [][]byte
+			prev := 0
+			for _, p := range append(pos, len(s)-1) {
+				out = append(out, append([]byte{}, s[prev:p+1]...))
+				prev = p + 1
+			}
+			return out
+		}
+		a, b = cut(), cut()
+		distinct := map[string]bool{}
+		for _, tx := range append(append([][]byte{}, a...), b...) {
+			distinct[string(tx)] = true
+		}
+		if len(distinct) == 2*n {
+			return a, b
+		}
+	}
+}
+
+// resplit: the mempool makes the reaper hand over a re-split pair as two consecutive batches; both are queued when the
+// node is restarted / dies (before and after the first of them went into a block).  Nothing may be lost.
+func (g *g) resplit(variant int, drainMode bool) {
+	w := g.w
+	qmax := 0
+	if g.r.Chance(30) {
+		qmax = 2 + g.r.Intn(3)
+	}
+	g.reset(qmax)
+	g.drainMode = drainMode
+	if g.r.Chance(50) {
+		g.arrive(1 + g.r.Intn(2))
+		fmt.Fprintln(w, "reap")
+		fmt.Fprintln(w, "produce")
+	}
+	a, b := g.resplitPair(2 + g.r.Intn(2))
+	mode := ""
+	if drainMode {
+		mode = "mode=drain "
+	}
+	fmt.Fprintf(w, "mempool %stxs=%s\n", mode, hx.HexList(a))
+	fmt.Fprintln(w, "reap")
+	second := b
+	if !drainMode && g.r.Chance(50) {
+		second = append(append([][]byte{}, a...), b...) // the mempool still shows the first list: filtered as seen
+	}
+	fmt.Fprintf(w, "mempool %stxs=%s\n", mode, hx.HexList(second))
+	fmt.Fprintln(w, "reap")
+	stop := func() {
+		if !drainMode && g.r.Chance(35) {
+			// the queue write of the last hand-off is durable (keep >= 1), its seen-marks maybe not
+			fmt.Fprintf(w, "crash keep=%d\n", []int{1, 2, 3, 9}[g.r.Intn(4)])
+		} else {
+			fmt.Fprintln(w, "restart")
+		}
+	}
+	switch variant {
+	case 0: // both queued at the restart
+		stop()
+	case 1: // the first went into a block, the second is still queued
+		fmt.Fprintln(w, "produce")
+		stop()
+	case 2: // both
+		stop()
+		fmt.Fprintln(w, "produce")
+		stop()
+	default: // no restart: the neighbour where nothing can be seen
+	}
+	fmt.Fprintln(w, "reap")
+	g.drain(6)
+}
+
 func Gen(r *hx.Rng, tier string, w io.Writer) {
 	x := &g{w: w, r: r}
 	// corpus: crash between "batch removed from the queue" and "block first saved" (recorded finding)
@@ -276,6 +367,14 @@ func Gen(r *hx.Rng, tier string, w io.Writer) {
 		fmt.Fprintln(w, "reap")
 		fmt.Fprintln(w, "reap")
 		x.drain(8)
+	}
+	// re-split pairs handed over as two consecutive batches (last, so that the random choices above are unchanged)
+	m := 12
+	if tier == "thorough" {
+		m = 80
+	}
+	for i := 0; i < m; i++ {
+		x.resplit(i%4, i%5 == 4)
 	}
 }
 
